@@ -113,8 +113,6 @@ func hasFile(fsys Files, name string) bool { _, ok := fsys[name]; return ok }
 //@   ensures n > 0 && result1 == nil ==> d.n == old(d.n) + len(result)
 //@   ensures n > 0 && result1 != nil ==> result1 == io.EOF && len(result) == 0 && d.n == old(d.n)
 //@   ensures n <= 0 ==> result1 == nil && d.n == old(d.n)
-//@   loop 1
-//@     invariant len(entries) == len(names)
 
 // ---------------------------------------------------------------------------
 // errors.go (C12): the public PanicError mirrors the runtime's chain of panics.
